@@ -61,13 +61,18 @@ class Model:
                             hs.append(fi)
             self.handlers[tval] = hs
         self.frames_emitted: List[Tuple[str, Sym]] = []
+        # the subscribed-to-ALL flag may be stored (assigned in the control method) or derived (a read-only property)
+        fp = prog.find_method(self.cl, "_sub_all")
+        self.flag_is_property = fp is not None and any(d.split(".")[-1] == "property" for d in fp.decorators)
         self.interp_steps = 0
         self.vocab: Dict[str, int] = {}
 
     # -- state <-> objects -------------------------------------------------------------------------
     def mk(self, state):
         sub, paused, sub_all, msubs, reg = state
-        client = Obj(self.cl, "Client", _subscribed_types=set(sub), _paused_types=set(paused), _sub_all=sub_all, _connected=True)
+        client = Obj(self.cl, "Client", _subscribed_types=set(sub), _paused_types=set(paused), _connected=True)
+        if not self.flag_is_property:
+            client.set("_sub_all", sub_all)
         module = Obj(self.mod, "Module", subs=set(msubs))
         table = defaultdict(set)
         for s in reg:
@@ -77,7 +82,8 @@ class Model:
 
     def freeze(self, client, mgr, module):
         table = mgr.get("subscriptions")
-        return (frozenset(client.get("_subscribed_types")), frozenset(client.get("_paused_types")), bool(client.get("_sub_all")),
+        flag = client.get("_sub_all") if not self.flag_is_property else self._interp().call_method(self.prog.find_method(self.cl, "_sub_all"), client, [])
+        return (frozenset(client.get("_subscribed_types")), frozenset(client.get("_paused_types")), bool(flag),
                 frozenset(module.get("subs")), frozenset(s for s in list(table) if module in table[s]))
 
     def _interp(self):
